@@ -215,6 +215,16 @@ static void account(const Alpha& al, const RTA& a, const RTA& b, const std::stri
 static void caseC01(uint64_t idx, vh::Rng& g)
 {
 	Alpha al; RTA a, b; std::string kind; genCase(idx, g, al, a, b, kind, 6, 10);
+	// forked operands (an eighth of the non-exhaustive cases): both objects start as copies of one automaton,
+	// sharing its rule storage, and are then modified differently in place
+	bool forked = false; RTA base;
+	if (kind.compare(0, 2, "G1") != 0 && kind != "input-file" && g.chance(1, 8))
+	{
+		forked = true; base = a; b = a; kind = "G6-forked-copies";
+		std::set<St> ss = base.states(); std::vector<St> st(ss.begin(), ss.end()); if (st.empty()) st.push_back(0);
+		auto extend = [&](RTA& x, int n) { for (int i = 0; i < n; ++i) { if (g.chance(1, 4)) { if (g.chance(1, 3)) x.fin.clear(); x.fin.insert(st[g.below(st.size())]); } else { RTA e = gen::randTA(g, al, st, g.range(1, 2), 0); x.rules.insert(e.rules.begin(), e.rules.end()); } } };
+		extend(a, g.range(0, 2)); extend(b, g.range(1, 3));
+	}
 	R->desc(rm::toTimbuk(a, al, "A") + rm::toTimbuk(b, al, "B"));
 	int ref = rm::refIncl(a, b, al);
 	account(al, a, b, kind, ref);
@@ -224,7 +234,7 @@ static void caseC01(uint64_t idx, vh::Rng& g)
 	CaseAlphabet ca(al);
 	// a fifth of the cases: operands are RESULTS of language-preserving operations (objects with a history);
 	// the reference verdict is unaffected
-	int derive = g.chance(1, 5) ? 1 + static_cast<int>(g.below(5)) : 0; if (derive) R->count("derived-operands");
+	int derive = g.chance(1, 5) ? 1 + static_cast<int>(g.below(5)) : 0; if (forked) derive = 0; if (derive) R->count("derived-operands");
 	if (derive == 4) { small = small && gen::maxTuples(b) * 2 <= 9; heavy = gen::maxTuples(b) * 2 > 12; }   // Union(B,B) doubles the tuples
 	auto mk = [&](const RTA& x, const char* nm) {
 		Aut r = viaText ? loadText<Aut>(rm::toTimbuk(x, al, nm)) : mkExpl(x, ca);
@@ -237,7 +247,17 @@ static void caseC01(uint64_t idx, vh::Rng& g)
 			case 5: { AutBase::StateToStateMap m; size_t c = 3; AutBase::StateToStateTranslWeak tr(m, [&c](const size_t&) { c += 2; return c; }); return r.ReindexStates(tr); }
 			default: return r;
 		} };
-	R->count(viaText ? "built:timbuk-text" : "built:AddTransition");
+	// the pair of operand objects of one library call
+	auto mkPair = [&](Aut& x, Aut& y) {
+		if (!forked) { x = mk(a, "A"); y = mk(b, "B"); return; }
+		Aut B0 = mkExpl(base, ca); x = B0; { Aut c(B0); y = c; }
+		auto grow = [&](Aut& o, const RTA& t) {
+			bool sup = true; for (St f : base.fin) if (!t.fin.count(f)) sup = false;
+			if (!sup) o.EraseFinalStates();
+			for (St f : t.fin) if (!sup || !base.fin.count(f)) o.SetStateFinal(f);
+			for (auto& r : t.rules) if (!base.rules.count(r)) { std::vector<size_t> ch(r.ch.begin(), r.ch.end()); o.AddTransition(ch, ca.num[r.sym], r.par); } };
+		grow(x, a); grow(y, b); };
+	R->count(forked ? "built:forked-copies" : viaText ? "built:timbuk-text" : "built:AddTransition");
 	for (const Sel& s : SELS)
 	{
 		if (s.down && !s.sim && !small) { R->count("skipped-large:" + std::string(s.name)); continue; }
@@ -246,12 +266,12 @@ static void caseC01(uint64_t idx, vh::Rng& g)
 		{
 			std::string sel = std::string("expl/") + s.name + (pre ? "/presanitised" : "");
 			R->phase(sel);
-			try { Aut x = mk(a, "A"), y = mk(b, "B"); bool r = inclProtocol(x, y, s, pre); judge("C01", sel, r, ref, -1); }
+			try { Aut x, y; mkPair(x, y); bool r = inclProtocol(x, y, s, pre); judge("C01", sel, r, ref, -1); }
 			catch (std::exception& e) { R->violation("C01/" + sel + "/exception", e.what()); }
 		}
 	}
 	R->phase("expl/default-params");
-	try { Aut x = mk(a, "A"), y = mk(b, "B"); judge("C01", "expl/default-params", Aut::CheckInclusion(x, y), ref, -1); }
+	try { Aut x, y; mkPair(x, y); judge("C01", "expl/default-params", Aut::CheckInclusion(x, y), ref, -1); }
 	catch (std::exception& e) { R->violation("C01/expl/default-params/exception", e.what()); }
 	if (idx % static_cast<uint64_t>(R->param("cli_every", 200)) == 0)
 	{	// the same pair through the command-line tool (option parsing -> dispatch -> simulation protocol of cli/operations.hh)
@@ -270,7 +290,7 @@ static void caseC01(uint64_t idx, vh::Rng& g)
 	}
 	if (idx % 16 == 0)
 	{	// unimplemented selections must throw NotImplementedException
-		Aut x = mk(a, "A"), y = mk(b, "B");
+		Aut x, y; mkPair(x, y);
 		R->phase("expl/unimplemented");
 		expectNotImplemented("C01", "expl/down-nonrec-opt", [&] { InclParam ip = mkParam(Sel{"", 1, 0, 1, 0}); return Aut::CheckInclusion(x, y, ip); });
 		expectNotImplemented("C01", "expl/up-rec", [&] { InclParam ip = mkParam(Sel{"", 0, 1, 0, 0}); return Aut::CheckInclusion(x, y, ip); });
@@ -357,6 +377,23 @@ static void caseC07(uint64_t idx, vh::Rng& g)
 		std::string nm = "bdd-bu/down-rec+sim"; R->phase(nm);
 		try { SharedDict sd; auto x = loadText<BDDBottomUpTreeAut>(sa, sd), y = loadText<BDDBottomUpTreeAut>(sb, sd); InclParam ip = mkParam(SELS[5]); judge("C07", nm, BDDBottomUpTreeAut::CheckInclusion(x, y, ip), ref, expl); }
 		catch (std::exception& e) { R->violation("C07/" + nm + "/exception", e.what()); }
+	}
+	if (small && !a.rules.empty() && g.chance(1, 3))
+	{	// forked operands: y is a copy of x (sharing its transition table) with one more final state
+		std::set<St> ss = a.states(); std::vector<St> st(ss.begin(), ss.end()); St extra = st[g.below(st.size())];
+		RTA a2 = a; a2.fin.insert(extra); int r1 = rm::refIncl(a2, a, al); R->count("forked-bdd-operands"); R->extraEvaluation();
+		auto numOf = [&](SharedDict& sd, St q, size_t& out) { auto it = sd.d.FindFwd("q" + vh::str(q)); if (it == sd.d.EndFwd()) return false; out = it->second; return true; };
+		try
+		{
+			{ SharedDict sd; auto x = loadText<BDDTopDownTreeAut>(sa, sd); auto y = x; size_t n;
+			  if (numOf(sd, extra, n)) { y.SetStateFinal(n); Sel s{"", 1, 1, 0, 0}; R->phase("bdd-td/fork/down-rec");
+			    judge("C07", "bdd-td/fork/down-rec(copy+final<=original)", inclProtocol(y, x, s, false), r1, -1); judge("C07", "bdd-td/fork/down-rec(original<=copy+final)", inclProtocol(x, y, s, false), 1, -1); } }
+			{ SharedDict sd; auto x = loadText<BDDBottomUpTreeAut>(sa, sd); auto y = x; size_t n;
+			  if (numOf(sd, extra, n)) { y.SetStateFinal(n); R->phase("bdd-bu/fork/up");
+			    judge("C07", "bdd-bu/fork/up(copy+final<=original)", inclProtocol(y, x, SELS[0], false), r1, -1); judge("C07", "bdd-bu/fork/up(original<=copy+final)", inclProtocol(x, y, SELS[0], false), 1, -1);
+			    if (maxTuples(a) <= 12) { InclParam ip = mkParam(SELS[5]); R->phase("bdd-bu/fork/down-rec+sim"); judge("C07", "bdd-bu/fork/down-rec+sim(copy+final<=original)", BDDBottomUpTreeAut::CheckInclusion(y, x, ip), r1, -1); } } }
+		}
+		catch (std::exception& e) { R->violation("C07/fork/exception", e.what()); }
 	}
 	if (idx % static_cast<uint64_t>(R->param("cli_every", 200)) == 0)
 	{
